@@ -105,6 +105,7 @@ def exec_stmt(E, n, st):
     # ghost hooks keyed by source text of the statement's first line
     hook = E.find_hook(n)
     if hook is not None:
+        st.hook_node = n        # the statement the hook is attached to (a hook may evaluate parts of it)
         hook(SpecCtx(E, st, E.cur_args, E.cur_h0), st)
     m = getattr(E, "st_" + type(n).__name__, None)
     if m is None:
